@@ -628,7 +628,7 @@ impl BrSpec {
         match self {
             BrSpec::Default => "default".into(),
             BrSpec::Ivv(v, w, _) => format!("ivv({},{})", VAR_SELECTORS[*v], VAL_SELECTORS[*w]),
-            BrSpec::Dynamic(v, w, _) => format!("dynamic(ivv({},{}) x2)", VAR_SELECTORS[*v], VAL_SELECTORS[*w]),
+            BrSpec::Dynamic(v, w, _) => format!("dynamic(ivv({},{}) x2, by seed also nested)", VAR_SELECTORS[*v], VAL_SELECTORS[*w]),
             BrSpec::Alternating(s, v, w, _) => format!(
                 "alternating({}, ivv({},{}))",
                 ["EverySolution", "EveryOtherSolution", "SwitchToDefaultAfterFirstSolution", "EveryRestart"][*s],
@@ -697,6 +697,16 @@ pub fn make_brancher(spec: &BrSpec, solver: &Solver, xs: &[X]) -> BoxB {
     match spec {
         BrSpec::Default => BoxB(Box::new(solver.default_brancher())),
         BrSpec::Ivv(v, w, sd) => BoxB(Box::new(ivv(*v, *w, &vars, *sd))),
+        BrSpec::Dynamic(v, w, sd) if (sd >> 1) % 3 == 0 && vars.len() >= 3 => {
+            // a dynamic brancher nested in a dynamic brancher
+            let t = vars.len() / 3;
+            let inner = DynamicBrancher::new(vec![
+                Box::new(ivv(*v, *w, &vars[..t], *sd)) as Box<dyn Brancher>,
+                Box::new(ivv(*v, *w, &vars[t..2 * t], sd.wrapping_add(1))),
+            ]);
+            let outer = DynamicBrancher::new(vec![Box::new(inner) as Box<dyn Brancher>, Box::new(ivv(*v, *w, &vars[2 * t..], sd.wrapping_add(2)))]);
+            BoxB(Box::new(outer))
+        }
         BrSpec::Dynamic(v, w, sd) => {
             let h = vars.len() / 2;
             let mut bs: Vec<Box<dyn Brancher>> = vec![];
